@@ -1042,3 +1042,14 @@ package app
 //@   ensures obs.master_gtid [C04,C11,C16]: reached("GTIDExecuted", 1) && resultof("GTIDExecuted", 1, 1) == nil ==> nodeState.MasterState != nil && nodeState.MasterState.ExecutedGtidSet == resultof("GTIDExecuted", 1, 0).ExecutedGtidSet
 //@   ensures obs.semisync [C04]: result == nil ==> nodeState.SemiSyncState != nil && (nodeState.SemiSyncState.MasterEnabled <==> resultof("SemiSyncStatus", 1, 0).MasterEnabled > 0) && (nodeState.SemiSyncState.SlaveEnabled <==> resultof("SemiSyncStatus", 1, 0).SlaveEnabled > 0) && nodeState.SemiSyncState.WaitSlaveCount == resultof("SemiSyncStatus", 1, 0).WaitSlaveCount
 //@   ensures obs.error_means_incomplete [C04,C05]: result == nil ==> reached("SemiSyncStatus", 1) && resultof("SemiSyncStatus", 1, 1) == nil && nodeState.PingOk
+//@ func (*app.appDCS).GetOrCreateLastShutdownNodeTime
+//@   assert_at Get#1 wrap.GetOrCreateLastShutdownNodeTime.key [C17]: callarg0 == pathLastShutdownNodeTime
+//@   assert_at return#* wrap.GetOrCreateLastShutdownNodeTime.reads_the_service [C17]: reached("Get", 1) && (resultof("Get", 1) == nil ==> result0 == t && result1 == nil) && (resultof("Get", 1) != nil && !errIs(resultof("Get", 1), dcs.ErrNotFound) ==> result1 == resultof("Get", 1))
+//@   assert_at Create#1 wrap.GetOrCreateLastShutdownNodeTime.create_key [C17]: callarg0 == pathLastShutdownNodeTime && errIs(resultof("Get", 1), dcs.ErrNotFound)
+//@ func (*app.appDCS).UpdateLastShutdownNodeTime
+//@   assert_at Set#1 wrap.UpdateLastShutdownNodeTime.key [C17]: callarg0 == pathLastShutdownNodeTime
+//@   ensures wrap.UpdateLastShutdownNodeTime.answer [C17]: reached("Set", 1) && result == resultof("Set", 1)
+//@ func (*app.appDCS).GetResetupStatus
+//@   assert_at JoinPath#1 wrap.GetResetupStatus.key [C17]: len(callarg0) == 2 && callarg0[0] == pathResetupStatus && callarg0[1] == host
+//@   assert_at Get#1 wrap.GetResetupStatus.op [C17]: callarg0 == resultof("JoinPath", 1)
+//@   assert_at return#* wrap.GetResetupStatus.answer [C17]: result1 == resultof("Get", 1) && result0 == resetupStatus
